@@ -85,6 +85,13 @@ Theorem C16_top_level_closed_form : forall p N,
 Proof. exact sy_knot_top. Qed.
 Print Assumptions C16_top_level_closed_form.
 
+(** The bottom layer is saturated at every tabulated level and contributes
+    nothing (so a loop that skips it computes the same table). *)
+Theorem C16_bottom_layer_never_contributes : forall p Phi i,
+  admissible p -> (0 <= i)%Z -> layer p Phi i 0 = 0.
+Proof. exact bottom_layer_zero. Qed.
+Print Assumptions C16_bottom_layer_never_contributes.
+
 (** ** The R reference (200 layers) against the Python code (201 layers) *)
 
 (** Exact difference: the contribution of the 201st layer. *)
@@ -96,17 +103,12 @@ Print Assumptions C16_python_minus_R_exact.
 
 (** Published parameter set (sd 0.162, theta_s 0.88, b 7.4, psi_s -0.024):
     the two agree within 1e-9 at every level; hence within the tolerance of the
-    repository's own test (np.allclose: 1e-8 + 1e-5 |reference|). *)
+    repository's own test (np.allclose: 1e-8 + 1e-5 |reference|; that form is
+    Corollary py_vs_R_published_allclose in Proofs/PeatclsmSpec2.v). *)
 Theorem C16_R_reproduced_published : forall i,
   Rabs (sy_knot published 201 i - sy_knot_R published i) <= 1 / 1000000000.
 Proof. exact py_vs_R_published. Qed.
 Print Assumptions C16_R_reproduced_published.
-
-Corollary C16_R_reproduced_published_allclose : forall i,
-  Rabs (sy_knot published 201 i - sy_knot_R published i)
-  <= 1 / 100000000 + 1 / 100000 * Rabs (sy_knot_R published i).
-Proof. exact py_vs_R_published_allclose. Qed.
-Print Assumptions C16_R_reproduced_published_allclose.
 
 (** More generally for every admissible parameter set with sd <= 0.162 m
     (Gaussian tail bound + one certified integral). *)
